@@ -11,13 +11,13 @@ TEXT = {
     "C17": dict(
         technique="property-based testing (rapid): wire token list compared with a model-derived list of populated leaves, per installation route and message part",
         level_text="Exploration: for generated populations using every public constructor, Set, KeyValue.Set and FromBytes of every value type in header, body, trailer, components and group entries, the tokenized output must equal the model's list (tags, order, group counts, canonical texts; Float by a validity predicate), also after a mutation of the same object and for the standalone Component/Items serializers.",
-        level_note="Trusted: harness/ref tokenizer and the model in harness/gen. The known finding 'trailer-fields-dropped' (KNOWN_FINDINGS.jsonl) is reported as KNOWN-FINDING and the remaining comparison continues without the trailer leaves.",
+        level_note="Trusted: harness/ref tokenizer and the model in harness/gen. Header, body and trailer leaves are all compared (the trailer defect the check found first is repaired).",
         design_ref="DESIGN.md section 4, C17",
     ),
     "C02": dict(
         technique="property-based testing (rapid): serialize/parse round trip judged against the generated model, leaf by leaf, plus re-serialization equality",
         level_text="Exploration: generated templates (nesting to depth 4, groups in group entries, components, every value type, decoy strings, all tests/fix44 types) are serialized, parsed by encoding.Unmarshal and by DefaultUnmarshaller{Strict:false} into a fresh message, every leaf compared with the generated value (ints exact, floats bit-exact, UTC times, bytes), group entry counts and order, and the parsed message re-serialized to the identical bytes.",
-        level_note="Trusted: the model/compare code in harness/gen and harness/build. C02's preconditions hold by construction; tests/fix44 MarketDataSnapshotFullRefresh is skipped because its generated group type repeats tags of the message (consequence of the generator finding recorded under C12).",
+        level_note="Trusted: the model/compare code in harness/gen and harness/build. C02's preconditions hold by construction (trailers are populated as well); tests/fix44 MarketDataSnapshotFullRefresh is skipped because its generated group type repeats tags of the message (consequence of the generator finding recorded under C12).",
         design_ref="DESIGN.md section 4, C02",
     ),
     "C03": dict(
